@@ -41,6 +41,24 @@ def label(e, env):
             return "%s(%s)" % (callee_name(c), ",".join(str(label(a, env)) for a in args))
     if e["k"] == "Lit":
         return repr(e["lit"]["v"])
+    if e["k"] == "Binary":
+        return "%s(%s,%s)" % (e["op"], label(e["l"], env), label(e["r"], env))
+    if e["k"] == "Array":
+        return "[%s]" % ",".join(str(label(x, env)) for x in e["elems"])
+    if e["k"] == "Match":
+        try:
+            arms = ["%s=>%s" % (v, label(a["body"], env)) for v, a, pat in hir.arms_by_variant(e)]
+            return "match(%s){%s}" % (label(e["scrut"], env), ";".join(arms))
+        except Unrecognised:
+            return "<Match>"
+    if e["k"] == "Closure":
+        env2 = dict(env)
+        for q in e.get("params", []):
+            if q.get("k") == "Binding":
+                env2[q["name"]] = "item"
+        return "|item|%s" % label(e["body"], env2)
+    if e["k"] == "Unary" and e.get("op") in ("!", "Not"):
+        return "!(%s)" % label(e["e"], env)
     return "<%s>" % e["k"]
 
 
@@ -144,7 +162,8 @@ class Emit:
             bind(inner["pat"], ["index", "item"] if enumerated else ["item"])
             body = self.block(inner["body"], env, depth, owner)
             # recognise the join idiom: [('if', 'i != 0', seps, []), item]
-            if len(body) == 2 and isinstance(body[0], tuple) and body[0][0] == "if" and not body[0][3]:
+            # join idiom: the separator is written before every item except the first -- the condition must be exactly `index != 0`
+            if len(body) == 2 and isinstance(body[0], tuple) and body[0][0] == "if" and not body[0][3] and body[0][1] in ("!=(index,0)", "Ne(index,0)", ">(index,0)", "Gt(index,0)"):
                 return [("join", src_l, body[0][2], body[1])]
             return [("loop", src_l, body)]
         if k == "Match":
@@ -206,3 +225,106 @@ def flat(sk):
     for x in sk:
         out.append(x)
     return out
+
+
+# ----------------------------------------------------------------------------
+# F-SKELETON-ALL: every formatter function against its reviewed emission skeleton
+import json as _json, os as _os
+FMT_TABLE = _os.path.join(_os.path.dirname(_os.path.dirname(_os.path.abspath(__file__))), "tables", "formatter_skeletons.json")
+FMT_MODULES = ("impl_enum::formatter", "impl_lexical::formatter", "common::common_narsese_templates")
+
+
+def _tojson(x):
+    if isinstance(x, (tuple, list)):
+        return [_tojson(y) for y in x]
+    if isinstance(x, dict):
+        return {str(k): _tojson(v) for k, v in sorted(x.items(), key=lambda kv: str(kv[0]))}
+    return x
+
+
+def formatter_skeletons(facts):
+    em = Emit(facts)
+    out = {}
+    for p, it in sorted(facts.hir.items()):
+        if not any(m in p for m in FMT_MODULES) or it.get("body") is None or "::tests" in p or "::test" in p or it["defkind"] not in ("Fn", "AssocFn"):
+            continue
+        args = []
+        for q in it["params"]:
+            if q["k"] != "Binding":
+                args.append("$_")
+            elif q["name"] == "self":
+                args.append("fmt")
+            elif q["name"] in ("out", "s") and True:
+                args.append("@sink")
+            else:
+                args.append("$" + q["name"])
+        try:
+            sk = em.fn(p, args)
+        except Unrecognised as u:
+            sk = [("unrecognised", str(u.what)[:80])]
+        key = "%s::%s" % ("enum" if "impl_enum" in p else "lexical" if "impl_lexical" in p else "template", it["name"])
+        n, base = 2, key
+        while key in out:
+            key = "%s#%d" % (base, n)
+            n += 1
+        out[key] = (_tojson(sk), it)
+    return out
+
+
+def _diff(a, b, path="#"):
+    if isinstance(a, list) and isinstance(b, list):
+        for i in range(max(len(a), len(b))):
+            if i >= len(a):
+                return "%s[%d]: extra %s" % (path, i, _json.dumps(b[i], ensure_ascii=False)[:120])
+            if i >= len(b):
+                return "%s[%d]: missing %s" % (path, i, _json.dumps(a[i], ensure_ascii=False)[:120])
+            d = _diff(a[i], b[i], "%s[%d]" % (path, i))
+            if d:
+                return d
+        return None
+    if isinstance(a, dict) and isinstance(b, dict):
+        for k in sorted(set(a) | set(b)):
+            if k not in a or k not in b:
+                return "%s.%s: present on one side only" % (path, k)
+            d = _diff(a[k], b[k], "%s.%s" % (path, k))
+            if d:
+                return d
+        return None
+    if a != b:
+        return "%s: expected %s, found %s" % (path, _json.dumps(a, ensure_ascii=False)[:100], _json.dumps(b, ensure_ascii=False)[:100])
+    return None
+
+
+def rule_F_SKELETON_ALL(ctx, floor=25):
+    ctx.rule("F-SKELETON-ALL", "emission skeleton of every function of the enum / lexical formatters and the shared templates (what is pushed to the "
+             "output in which order: table fields, joins with their separators and the exact `index != 0` join condition, guards, rendered "
+             "sub-items) equals the reviewed skeleton of that function (checks/tables/formatter_skeletons.json): the formatter-side counterpart "
+             "of P-SKELETON")
+    try:
+        ref = _json.load(open(FMT_TABLE, encoding="utf-8"))["skeletons"]
+    except OSError:
+        from facts import AnchorMissing
+        raise AnchorMissing("checks/tables/formatter_skeletons.json")
+    got = formatter_skeletons(ctx.facts)
+    ctx.floor("formatter functions with an emission skeleton", len(got), floor)
+    for name, (sk, it) in sorted(got.items()):
+        ctx.fn(it)
+        r = ref.get(name)
+        site = "%s:%s" % (it["span"]["file"], it["span"]["line"])
+        if r is None:
+            ctx.ob("F-SKELETON-ALL", name, False, "new formatter function without a reviewed skeleton", site)
+            continue
+        d = _diff(r["skeleton"], sk)
+        ctx.ob("F-SKELETON-ALL", name, d is None, d or "", site)
+    for name in sorted(set(ref) - set(got)):
+        ctx.ob("F-SKELETON-ALL", name, False, "reviewed skeleton has no function any more")
+
+
+if __name__ == "__main__":
+    import sys
+    sys.path[:0] = [_os.path.join(_os.path.dirname(_os.path.dirname(_os.path.abspath(__file__))), "lib")]
+    import facts
+    got = formatter_skeletons(facts.load())
+    print(_json.dumps({"_doc": "Reviewed emission skeletons of the formatter functions; regenerate with `python3 checks/rules/emit.py > "
+                               "checks/tables/formatter_skeletons.json` and REVIEW the diff.",
+                       "skeletons": {k: {"skeleton": v[0]} for k, v in sorted(got.items())}}, ensure_ascii=False, indent=1))
